@@ -18,12 +18,14 @@ CONSTANTS
   KeepDead = FALSE
   Miu <- MiuAB
   Lens = {0, 3, 4}
+  InsertLast = FALSE
   HdrInMiu = FALSE
 INVARIANT OneAddrPerSocket
 INVARIANT NoDoubleAlloc
 INVARIANT RangesRespected
 INVARIANT FreedOnLastClose
 INVARIANT Datagram
+INVARIANT LiveFirst
 PROPERTY ResolveRight
 PROPERTY InUseRight
 PROPERTY ConnectByName
